@@ -316,6 +316,23 @@ func (p *pat) match(t *Term, b Binds) bool {
 	}
 	for depth := 0; depth < 3; depth++ {
 		nt := expandAt(xProg, t)
+		if nt == nil && t.Op == "bin" && len(t.Args) == 2 {
+			// an operand computed by a helper: with it expanded the expression may take another canonical form
+			// (the pattern is canonicalised the same way), e.g. helper()/32 with helper = len(x)*8
+			l, r := expandAt(xProg, t.Args[0]), expandAt(xProg, t.Args[1])
+			if l != nil || r != nil {
+				if l == nil {
+					l = t.Args[0]
+				}
+				if r == nil {
+					r = t.Args[1]
+				}
+				nt = canonBin(&Term{Op: "bin", Name: t.Name, V: t.V, Args: []*Term{l, r}})
+				if nt.String() == t.String() {
+					nt = nil
+				}
+			}
+		}
 		if nt == nil {
 			return false
 		}
